@@ -206,11 +206,40 @@ fn history(ctx: &mut Ctx, ke: &BigUint, ida: &[u8], idb: &[u8], klen: usize, r_a
     }
 }
 
+/// B's side alone for an arbitrary VALID G1 point as R_A (its discrete logarithm need not be known): B must answer
+/// with the standard's R_B and key.
+fn responder_with_point(ctx: &mut Ctx, ke: &BigUint, ida: &[u8], idb: &[u8], klen: usize, ra_pt: &(BigUint, BigUint), r_b: &BigUint, cls: &str) {
+    let mk = enc_master(ke);
+    let Some(kb) = enc_key_from_ref(ke, idb, r9::HID_EXCH) else { return };
+    let Some((rb_ref, sk_ref)) = r9::exch_responder(ke, ida, idb, ra_pt, r_b, klen) else { return };
+    if sk_ref.iter().all(|&b| b == 0) {
+        return;
+    }
+    let w = json!({"ke": hex::encode(r9::b32(ke)), "idA": hx(ida), "idB": hx(idb), "klen": klen, "rB": hex::encode(r9::b32(r_b)), "R_A": hex::encode(r9::pt_bytes(ra_pt)), "class": cls});
+    ctx.eval();
+    ctx.class(cls);
+    ctx.distinct("resp", &[&r9::b32(&ra_pt.0), &r9::b32(r_b)]);
+    rng_prepare(&[r_b]);
+    let o = guard(|| gm_sm9::key::exch_step_1b(&mk, ida, idb, &kb, &lib_g1_affine(ra_pt), klen));
+    let seen = rng_seen();
+    match o {
+        Outcome::Ret(Ok((rb_lib, skb))) => {
+            if seen.accepted.last() != Some(r_b) {
+                return; // the generator refused the injected scalar (lowest limb zero); compared elsewhere on fresh draws
+            }
+            if r9::ref_g1(&rb_lib) != Some(rb_ref) || skb != sk_ref {
+                ctx.violation(&format!("exch_step_1b:{}:differs-from-standard", cls), w);
+            }
+        }
+        o => ctx.violation(&format!("exch_step_1b:{}:valid-R_A:{}", cls, if let Outcome::Ret(Err(_)) = &o { "err" } else { o.class() }), w),
+    }
+}
+
 pub fn run(ctx: &mut Ctx) {
     for (n, ok) in r9::selftest(ctx.shard == 0) {
         ctx.selftest(&n, ok);
     }
-    ctx.require(&["annex_kat", "honest_keys_equal", "tampered_keys_differ", "responder_rejects_offcurve_RA", "initiator_rejects_offcurve_RB", "tamper=RaOther", "tamper=RbOther", "tamper=RaBitflipOnCurve", "tamper=RbNeg", "klen=1", "klen=128", "parties_have_public_master_key_only", "sparse_ephemeral_scalars", "kdf_direct", "ke=H1(id)_doubling_in_Q", "sk_all_zero_retry_path"]);
+    ctx.require(&["annex_kat", "honest_keys_equal", "tampered_keys_differ", "responder_rejects_offcurve_RA", "initiator_rejects_offcurve_RB", "tamper=RaOther", "tamper=RbOther", "tamper=RaBitflipOnCurve", "tamper=RbNeg", "klen=1", "klen=128", "parties_have_public_master_key_only", "sparse_ephemeral_scalars", "kdf_direct", "ke=H1(id)_doubling_in_Q", "sk_all_zero_retry_path", "crafted_valid_R_A"]);
     let pr = r9::params();
     let mut paux = ctx.prng("aux");
     if ctx.shard == 0 {
@@ -220,6 +249,22 @@ pub fn run(ctx: &mut Ctx) {
         ctx.class("annex_kat");
         history(ctx, &ke, b"Alice", b"Bob", 16, &ra, &rb, Tamper::None, &mut paux);
         ctx.sample(json!({"annex": {"ke": "0002E65B..E31F", "ida": "Alice", "idb": "Bob", "klen": 16, "SK": "C5C13A8F59A97CDEAE64F16A2272A9E7"}}));
+    }
+    // --- R_A crafted so that the addition x^3 + 5 of B's on-curve test lands on a carry / reduction boundary
+    {
+        let mut pc = ctx.prng("crafted_pts");
+        let reps = ctx.n(1, 6);
+        for _ in 0..reps {
+            let sub = pc.next();
+            let mut q = Prng::new(sub, "cp");
+            for (name, pt) in crafted_g1_points(&mut q, 1, ctx.shard as u64, ctx.nshards as u64) {
+                let ke = rand_scalar(&mut q, &(&pr.n - 1u32));
+                let r_b = rand_scalar(&mut q, &pr.n);
+                let klen = 1 + q.below(48) as usize;
+                ctx.class(&format!("crafted:{}", name));
+                responder_with_point(ctx, &ke, b"Alice", b"Bob", klen, &pt, &r_b, "crafted_valid_R_A");
+            }
+        }
     }
     // --- the SM9 KDF itself (hook wrapper): every klen 1..=300 plus block-counter boundaries
     {
